@@ -393,6 +393,27 @@ func (c *pfCtx) tExpr() {
 	}
 }
 
+// tForUpdate: helpers that are called only from the update clause of a for loop / from a continuing block (reachable
+// for CompactUnused through StmtLoop.Continuing only).
+func (c *pfCtx) tForUpdate() {
+	nx, wt := c.name("nx"), c.name("wt")
+	c.fns = append(c.fns,
+		wg.Fn(wt, []wg.N{wg.Param("x", tI), wg.Param("y", tI)}, tI, []wg.N{wg.Ret(ibin("+", ibin("*", idI("x"), li(3)), idI("y")))}),
+		wg.Fn(nx, []wg.N{wg.Param("x", tI)}, tI, []wg.N{wg.Ret(ibin("+", idI("x"), li(1+c.rng.Intn(2))))}))
+	i, s := c.name("i"), c.name("s")
+	c.add(wg.Var(s, tI, li(c.k())),
+		wg.For(wg.Var(i, tI, li(0)), icmp("<", lv(i), li(4)), wg.Asg(rv(i), wg.Call(nx, tI, lv(i))),
+			[]wg.N{wg.Asg(rv(s), wg.Call(wt, tI, lv(s), ibin("+", lv(i), inp(c.in()))))}))
+	c.emit(lv(s))
+	if c.rng.Intn(2) == 0 { // the same in a hand-written continuing block, the helper of the body called nowhere else either
+		j, t := c.name("j"), c.name("t")
+		c.add(wg.Var(j, tI, li(0)), wg.Var(t, tI, inp(c.in())),
+			wg.Loop([]wg.N{wg.If(icmp(">=", lv(j), li(3)), []wg.N{wg.Break()}, nil), wg.CAsg("+", rv(t), lv(j))},
+				[]wg.N{wg.Asg(rv(j), wg.Call(nx, tI, lv(j)))}, wg.None))
+		c.emit(ibin("+", lv(t), lv(j)))
+	}
+}
+
 // tSelect: Select expressions whose operands come after expressions the compaction passes remove (a dead let, the
 // templates the inliner leaves behind), scalar and vector conditions.
 func (c *pfCtx) tSelect() {
@@ -451,7 +472,7 @@ func passProg(rng *rand.Rand, idx int) Case {
 	tpls := []tpl{
 		{"earlyret", c.tEarlyRet}, {"ptr", c.tPtr}, {"loopret", c.tLoopRet}, {"glob", c.tGlob}, {"chain", c.tChain},
 		{"sroa", c.tSroa}, {"m2r-if", c.tM2rIf}, {"m2r-switch", c.tM2rSwitch}, {"m2r-loop", c.tM2rLoop}, {"dead", c.tDead},
-		{"expr", c.tExpr}, {"globals", c.tGlobals}, {"select", c.tSelect},
+		{"expr", c.tExpr}, {"globals", c.tGlobals}, {"select", c.tSelect}, {"for-update", c.tForUpdate},
 	}
 	n := 2 + rng.Intn(4)
 	// the first template rotates so that every one is exercised even in a small sample
